@@ -109,18 +109,35 @@ func splitFrontMatter(raw []byte) (map[string]any, []byte) {
 		return nil, raw
 	}
 
-	parts := strings.SplitN(content, "---", 3)
-	if len(parts) < 3 {
+	// The opening delimiter is the first line; the block ends at the next line that is ---
+	// by itself (a --- inside a value, or a longer run of dashes, is not a delimiter).
+	lines := strings.SplitAfter(content, "\n")
+	if strings.TrimRight(lines[0], " \t\r\n") != "---" {
+		return nil, raw
+	}
+	closing := -1
+	for i := 1; i < len(lines); i++ {
+		if strings.TrimRight(lines[i], " \t\r\n") == "---" {
+			closing = i
+			break
+		}
+	}
+	if closing < 0 {
 		return nil, raw
 	}
 
 	var fm map[string]any
-	if err := yaml.Unmarshal([]byte(parts[1]), &fm); err != nil {
+	if err := yaml.Unmarshal([]byte(strings.Join(lines[1:closing], "")), &fm); err != nil {
 		return nil, raw
 	}
 
-	body := strings.TrimSpace(parts[2])
-	return fm, []byte(body)
+	// Blank lines after the block are dropped; the indentation of the first line of the body
+	// (an indented code block) and the white space at its end (inside a code block) are kept.
+	rest := lines[closing+1:]
+	for len(rest) > 0 && strings.TrimSpace(rest[0]) == "" {
+		rest = rest[1:]
+	}
+	return fm, []byte(strings.Join(rest, ""))
 }
 
 // Render writes the rendered HTML of the parsed document to w.
